@@ -364,7 +364,35 @@ fn main() {
         // --- custom fonts
         let nc = run.tier(200_000u64, 40_000_000u64);
         run.generate("custom-fonts", nc, false, 0.5, |ctx, idx, rng| {
-            let f: CustomFontD = zoo::gen_custom_font(rng);
+            let mut f: CustomFontD = zoo::gen_custom_font(rng);
+            // 1 in 16 of the small fonts: the glyphs are mapped to one range of consecutive characters that
+            // spans the surrogate gap (U+D7FF is followed by U+E000: a range of `char`s has no code
+            // points in between, so code-point arithmetic over a range miscounts by 2048; seeded `C14-15`),
+            // alone or after a few listed characters
+            if !f.closure_mapping && f.glyph_chars.len() >= 2 && f.glyph_chars.len() <= 200 && rng.chance(1, 16) {
+                let n = f.glyph_chars.len();
+                let listed = if n >= 4 && rng.chance(1, 2) { rng.usizer(1, 2) } else { 0 };
+                let in_range = n - listed;
+                let before_gap = rng.usizer(1, in_range.max(2) - 1).min(in_range);
+                let first = 0xD800u32 - before_gap as u32;
+                let mut chars: Vec<char> = (0..listed).map(|k| (b'A' + k as u8) as char).collect();
+                let mut cp = first;
+                while chars.len() < n {
+                    if (0xD800..0xE000).contains(&cp) {
+                        cp = 0xE000;
+                    }
+                    chars.push(char::from_u32(cp).unwrap());
+                    cp += 1;
+                }
+                let mut mapping: String = chars[..listed].iter().collect();
+                mapping.push('\0');
+                mapping.push(chars[listed]);
+                mapping.push(*chars.last().unwrap());
+                // occasionally one more listed character after the range
+                f.glyph_chars = chars;
+                f.mapping = mapping;
+                ctx.count("custom_fonts_with_a_range_across_the_surrogate_gap", 1);
+            }
             let s: String = zoo::gen_custom_string(rng, &f).replace('\n', "");
             let t = text_of(s, FontD::Custom(f.clone()), idx as usize, rng);
             // ground truth of the mapping: the generator's character list (the mapping string handed
